@@ -26,7 +26,7 @@ func exec(op string) vlib.Res {
 		return vlib.Res{Impl: "bad-op"}
 	}
 	switch f[0] {
-	case "rw", "wg", "res", "burst":
+	case "rw", "wg", "res", "burst", "eff", "proc":
 		return execLocal(op)
 	case "dedup", "sys":
 		if os.Getenv("C11_NOCHILD") != "" {
@@ -55,6 +55,10 @@ func execLocal(op string) vlib.Res {
 		return execRes(f)
 	case "burst":
 		return execBurst(f)
+	case "eff":
+		return execEff(f)
+	case "proc":
+		return execProc(f)
 	}
 	return vlib.Res{Impl: "bad-op"}
 }
